@@ -269,6 +269,13 @@ impl<'tcx> Dumper<'tcx> {
             }
             return o;
         }
+        if let mir::Const::Ty(_, ct) = c.const_ {
+            if let ty::ConstKind::Param(pc) = ct.kind() {
+                // a const generic parameter of the enclosing item: its value is known only per instantiation (see callee.gargs)
+                o.set("cparam", s(pc.name.as_str()));
+                o.set("cparam_index", n(pc.index as i128));
+            }
+        }
         if let mir::Const::Unevaluated(uv, _) = c.const_ {
             o.set("def", s(self.path(uv.def)));
             if uv.promoted.is_some() {
